@@ -15,6 +15,7 @@ pub fn mpsc_channel<T>() -> (MpscSender<T>, MpscReceiver<T>) {
     let inner = Arc::new(Mutex::new(RefCell::new(MpscInner {
         data: VecDeque::with_capacity(64),
         waker: None,
+        sender_count: 1,
         is_closed: false,
     })));
     (
@@ -28,6 +29,7 @@ pub fn mpsc_channel<T>() -> (MpscSender<T>, MpscReceiver<T>) {
 struct MpscInner<T> {
     data: VecDeque<T>,
     waker: Option<Waker>,
+    sender_count: usize,
     is_closed: bool,
 }
 
@@ -57,9 +59,29 @@ pub struct MpscSender<T> {
 
 impl<T> Clone for MpscSender<T> {
     fn clone(&self) -> Self {
+        critical_section::with(|cs| {
+            self.inner.borrow(cs).borrow_mut().sender_count += 1;
+        });
         Self {
             inner: self.inner.clone(),
         }
+    }
+}
+
+impl<T> Drop for MpscSender<T> {
+    fn drop(&mut self) {
+        critical_section::with(|cs| {
+            let mut inner_lock = self.inner.borrow(cs).borrow_mut();
+            inner_lock.sender_count -= 1;
+            if inner_lock.sender_count == 0 {
+                // When the last sender is dropped close the channel and wake the
+                // waiting task so that it can finish knowing it won't get any more messages
+                inner_lock.is_closed = true;
+                if let Some(w) = inner_lock.waker.take() {
+                    w.wake()
+                }
+            }
+        })
     }
 }
 
